@@ -1486,9 +1486,11 @@ class EdgeAssemblyChanger(GeometryChanger):
                 core.add(a, spatialLocator)
                 self._newAssembliesAdded.append(a)
 
-        parameters.ALL_DEFINITIONS.resetAssignmentFlag(
-            SINCE_LAST_GEOMETRY_TRANSFORMATION
-        )
+        if self._newAssembliesAdded:
+            # removeEdgeAssemblies sets the flags again only when it removes assemblies
+            parameters.ALL_DEFINITIONS.resetAssignmentFlag(
+                SINCE_LAST_GEOMETRY_TRANSFORMATION
+            )
 
     def removeEdgeAssemblies(self, core):
         """
